@@ -31,7 +31,7 @@ from copulas.univariate import (BetaUnivariate, GammaUnivariate, GaussianKDE, Ga
                                 StudentTUnivariate, TruncatedGaussian, UniformUnivariate, Univariate)
 from copulas.utils import get_instance
 
-from symx.core import Ctx, SymReal, explore, model_value, objarr, sym, tz
+from symx.core import Ctx, SymReal, explore, model_value, objarr, sym, symarr, tz
 from symx.report import Check
 from symx.rng import RNGModel
 from symx.shim import NPShim, ns, patched, patched_many, uses_havoc
@@ -358,6 +358,9 @@ def misuse_checks():
             except Exception as e:
                 res.append((f'unfitted {nm}.{meth}', f'{type(e).__name__}: {e}'))
         bad_tables = {'empty': pd.DataFrame({'a': [], 'b': []}), 'rows but no columns': pd.DataFrame(index=range(3)), 'non-numeric': pd.DataFrame({'a': ['x', 'y', 'z'], 'b': [1.0, 2.0, 3.0]}),
+                      'boolean column': pd.DataFrame({'a': [True, False, True, True], 'b': [1.0, 2.0, 3.0, 0.5]}),
+                      'numbers stored as text': pd.DataFrame({'a': ['1.5', '2.5', '0.1', '3.0'], 'b': [1.0, 2.0, 3.0, 0.5]}),
+                      'datetime column': pd.DataFrame({'a': pd.to_datetime(['2020-01-01', '2020-02-01', '2020-03-05', '2021-01-01']), 'b': [1.0, 2.0, 3.0, 0.5]}),
                       'NaN': pd.DataFrame({'a': [1.0, np.nan, 3.0], 'b': [1.0, 2.0, 4.0]})}
         for tn, t in bad_tables.items():
             m = mk()
@@ -647,6 +650,8 @@ def task(a):
             return (('two_fit',), r)
         if a[0] == 'two_fit':
             r = two_fit(*a[1:])
+        elif a[0] == 'biv_two_fit':
+            r = biv_two_fit(a[1])
         elif a[0] == 'havoc':
             r = havoc_in_vine(*a[1:])
         else:
@@ -658,7 +663,139 @@ def task(a):
         return (a, {'error': traceback.format_exc()[-1500:]})
 
 
+# ---------------------------------------------------------------- bivariate copulas: fit(A).fit(B) == fit(B)
+
+class DetKendall:
+    """kendalltau as a deterministic function of the two columns (NaN iff a column is constant)"""
+
+    def __call__(self, x, y, *a, **k):
+        from .stubs import all_equal
+        x = list(np.asarray(x, dtype=object).flat)
+        y = list(np.asarray(y, dtype=object).flat)
+        if len(x) < 2 or all_equal(x) or all_equal(y):
+            return (float('nan'), float('nan'))
+        t = uf_of('kendalltau', len(x), x + y)
+        Ctx.cur.assume(t.t >= -1, t.t <= 1)
+        return (t, uf_of('kendall_p', len(x), x + y))
+
+
+class DetLSQ:
+    """least_squares(fun, x0, bounds): a root of fun inside the bounds; as a local solver its answer is a function of the
+    residual *and of the starting point* (same residual term and same x0 => same answer, nothing else is promised)"""
+
+    def __init__(self):
+        self.memo = {}
+
+    def __call__(self, fun, x0, *a, **kw):
+        from .stubs import LSQResult
+        ctx = Ctx.cur
+        P = SymReal(z3.Real('lsq_placeholder'))
+        r = fun(objarr([P]))
+        r0 = r.ravel()[0] if isinstance(r, np.ndarray) else r
+        key = (str(z3.simplify(tz(r0))), str(z3.simplify(tz(x0))) if isinstance(x0, SymReal) else repr(x0))
+        if key not in self.memo:
+            self.memo[key] = SymReal(z3.Real(f'theta_ls#{len(self.memo)}'))
+        th = self.memo[key]
+        bounds = kw.get('bounds', (-np.inf, np.inf))
+        rr = fun(objarr([th]))
+        rr0 = rr.ravel()[0] if isinstance(rr, np.ndarray) else rr
+        ctx.assume(tz(rr0) == 0, th.t >= float(bounds[0]), th.t <= float(bounds[1]))
+        return LSQResult(objarr([th]))
+
+
+def biv_two_fit(fam):
+    from .c10 import patches as fit_patches, FAMS
+    cls, _ = FAMS[fam]
+
+    def attempt(c, X):
+        try:
+            c.fit(X)
+            return 'ok'
+        except ValueError as e:
+            return 'ValueError'
+
+    def fn(ctx):
+        A, Bd = symarr('a', 2, 2), symarr('b', 2, 2)
+        for x in list(A.flat) + list(Bd.flat):
+            ctx.assume(x.t >= 0, x.t <= 1)
+        with fit_patches(DetKendall(), lsq=DetLSQ()):
+            m = cls()
+            ra = attempt(m, A)
+            rb = attempt(m, Bd)
+            f = cls()
+            rf = attempt(f, Bd)
+        return {'hist': (ra, rb), 'm': (rb, m.tau, m.theta), 'f': (rf, f.tau, f.theta)}
+    paths, ex, _ = explore(fn, max_paths=5000, tlimit=200)
+    fails = []
+    for p in paths:
+        if p.status != 'ok':
+            fails.append({'what': f'raises {type(p.exc).__name__}: {str(p.exc)[:80]}'})
+            continue
+        v = p.value
+        (r1, t1, th1), (r2, t2, th2) = v['m'], v['f']
+        if r1 != r2:
+            fails.append({'what': f'the second fit ends with {r1}, a fresh fit on the same data with {r2} (history {v["hist"]})'})
+            continue
+        if r1 != 'ok':
+            continue
+        for nm, a_, b_ in (('tau', t1, t2), ('theta', th1, th2)):
+            same = (a_ is b_) or (isinstance(a_, SymReal) and isinstance(b_, SymReal) and (a_.t.eq(b_.t))) or \
+                   (not isinstance(a_, SymReal) and not isinstance(b_, SymReal) and (a_ == b_ or (a_ != a_ and b_ != b_)))
+            if not same and isinstance(a_, SymReal) and isinstance(b_, SymReal):
+                s_ = z3.Solver()
+                s_.set('timeout', 20000)
+                s_.add(*p.ctx.pc)
+                s_.add(a_.t != b_.t)
+                same = s_.check() == z3.unsat
+            if not same:
+                fails.append({'what': f'{nm} after fit(A); fit(B) is not {nm} of a fresh fit(B) (history {v["hist"]})'})
+    return {'fam': fam, 'paths': len(paths), 'exhaustive': ex, 'fails': fails[:3]}
+
+
+def concrete_biv_refit(fam):
+    """real code: a copula fitted on A and then on B equals (bit for bit) a fresh copula fitted on B"""
+    import warnings
+    warnings.simplefilter('ignore')
+    from copulas.bivariate import Clayton, Frank, Gumbel
+    cls = {'clayton': Clayton, 'gumbel': Gumbel, 'frank+': Frank, 'frank-': Frank, 'frank': Frank}[fam]
+    rs = np.random.RandomState(3)
+    n = 60
+    base = rs.uniform(size=n)
+    pos = np.column_stack((base, np.clip(base + 0.15 * rs.normal(size=n), 0.001, 0.999)))
+    neg = np.column_stack((base, np.clip(1 - base + 0.1 * rs.normal(size=n), 0.001, 0.999)))
+    zero = np.array([[0.2, 0.4], [0.4, 0.8], [0.6, 0.2], [0.8, 0.6]])       # Kendall tau exactly 0
+    weak = np.column_stack((base, rs.uniform(size=n)))
+    firsts = [zero, weak, pos, neg]
+    seconds = [pos] if cls is not Frank else [pos, neg]
+    for A in firsts:
+        for Bd in seconds:
+            m = cls()
+            try:
+                m.fit(A)
+            except ValueError:
+                pass
+            try:
+                m.fit(Bd)
+                f = cls()
+                f.fit(Bd)
+            except ValueError:
+                continue
+            if not (m.tau == f.tau and m.theta == f.theta):
+                return True, (f'{cls.__name__}: after fit(A) (tau {stats_tau(A):+.3f}) and fit(B) (tau {f.tau:+.3f}) theta = {m.theta!r}, '
+                              f'a fresh copula fitted on B has theta = {f.theta!r}')
+    return False, ''
+
+
+def stats_tau(X):
+    from scipy import stats
+    return float(stats.kendalltau(X[:, 0], X[:, 1])[0])
+
+
 def replay(d):
+    if d.get('kind') == 'biv_refit':
+        bad, detail = concrete_biv_refit(d['fam'])
+        print(detail)
+        return bad
     if d.get('kind') == 'multi_refit':
         bad, detail = concrete_multi_refit(d['fam'])
     elif d.get('kind') == 'refit':
@@ -692,6 +829,7 @@ def run(tier, seed):
     jobs += [('vine_two_fit', t) for t in ('center', 'direct', 'regular')] + [('gm_two_fit',)]
     if tier != 'quick':
         jobs += [('havoc', 5, t) for t in ('direct',)]
+    jobs += [('biv_two_fit', f) for f in ('clayton', 'gumbel', 'frank')]
     jobs.append(('misuse',))
     for a, r in pool_map(task, jobs):
         if r.get('error'):
@@ -719,6 +857,19 @@ def run(tier, seed):
                     break
                 else:
                     ck.inconcl(f"{nm}: {fl['what']}; not reproduced on the real code")
+        elif a[0] == 'biv_two_fit':
+            ck.paths += r['paths']
+            ck.states += r['paths']
+            nm = f"bivariate {r['fam']}: fit(A).fit(B) == fit(B) on 2-row tables, refusals included ({r['paths']} paths)"
+            if not r['exhaustive']:
+                ck.inconcl(nm + ': not exhaustive')
+            ck.ob(nm, 'unsat' if not r['fails'] else 'sat', r['secs'], queries=r['paths'])
+            if r['fails']:
+                bad, detail = concrete_biv_refit(r['fam'])
+                if bad:
+                    ck.violation(f"refit:bivariate {r['fam']}", f"{nm}: {r['fails'][0]['what']} -- {detail}", {'kind': 'biv_refit', 'fam': r['fam']})
+                else:
+                    ck.inconcl(f"{nm}: {r['fails'][0]['what']}; not reproduced on the real code")
         elif a[0] == 'havoc':
             ck.paths += r['paths']
             ck.states += r['paths']
@@ -744,6 +895,11 @@ def run(tier, seed):
         bad, detail, data = concrete_refit_violation(fam)
         if bad:
             ck.violation(f"refit:{fam.split('(')[0]}", detail, {'kind': 'refit', 'fam': fam, 'A': data[0], 'B': data[1]})
+    for fam_ in ('clayton', 'gumbel', 'frank'):
+        n += 1
+        bad, detail = concrete_biv_refit(fam_)
+        if bad:
+            ck.violation(f'refit:bivariate {fam_}', detail, {'kind': 'biv_refit', 'fam': fam_})
     for which in ('VineCopula', 'GaussianMultivariate'):
         n += 1
         bad, detail = concrete_multi_refit(which)
